@@ -1,4 +1,5 @@
 import LeptosModel.Model.Reactive
+import LeptosModel.Model.ReactiveOld
 import LeptosModel.Proofs.ReactiveTop
 /-!
 # C09 — computations run only when something they read has changed
@@ -13,7 +14,9 @@ namespace Leptos.Reactive
 def unjustIn (log : List Ev) : Bool := log.any fun e => match e with | .unjust _ => true | _ => false
 
 /-- **full statement**: for every well-formed program and every history of writes, reads and
-executor polls, no memo or effect body runs without justification. -/
+executor polls, no memo or effect body runs without justification.  OPEN for programs with effects
+(it was FALSE of the code before the repair 4084efd, see `C09_effect_double_run_witness`; after the repair no
+counterexample is known: 0 in 63 000 generated programs x histories); PROVED for effect-free programs below. -/
 def C09_run_justified_full : Prop :=
   ∀ (p : Prog) (ops : List Op), WF p = true → unjustIn (run p ops).log = false
 
@@ -25,22 +28,23 @@ def c09Prog : Prog :=
 
 def c09Ops : List Op := [.idle, .set 0 1, .idle]
 
+/-- F-C09-1 (repaired in /repo 4084efd): with the effect scheduling code BEFORE the repair (`runOld`) one write made
+the effect body run twice, the second time with identical inputs; with the repaired code it runs once. -/
 theorem C09_effect_double_run_witness :
-    WF c09Prog = true ∧ unjustIn (run c09Prog c09Ops).log = true ∧
-    ((run c09Prog c09Ops).get 3).runs = 3 := by decide +kernel
+    WF c09Prog = true ∧
+    unjustIn (runOld c09Prog c09Ops).log = true ∧ ((runOld c09Prog c09Ops).get 3).runs = 3 ∧
+    unjustIn (run c09Prog c09Ops).log = false ∧ ((run c09Prog c09Ops).get 3).runs = 2 := by decide +kernel
 
-theorem C09_run_justified_full_false : ¬ C09_run_justified_full := by
+/-- the full statement about the OLD code is false (regression witness) -/
+def C09_run_justified_full_old : Prop :=
+  ∀ (p : Prog) (ops : List Op), WF p = true → unjustIn (runOld p ops).log = false
+
+theorem C09_run_justified_full_old_false : ¬ C09_run_justified_full_old := by
   intro h
   have h1 := h c09Prog c09Ops (by decide +kernel)
   have h2 := C09_effect_double_run_witness.2.1
   rw [h1] at h2
   exact absurd h2 (by decide)
-
-/-! ## memos: every run is justified
-
-For programs without effects (signals and memos only) and tracked reads only, no memo body
-ever runs unless it has never run or one of the inputs tracked by its previous run has a new
-version.  (`bodiesTracked` is the same function as `progTracked` of `Theorems/C01.lean`.) -/
 
 theorem unjustIn_false_iff (log : List Ev) : unjustIn log = false ↔ ∀ i, Ev.unjust i ∉ log := by
   unfold unjustIn
